@@ -42,6 +42,28 @@ MUTATING_METHODS = {
     "__delitem__", "appendleft", "popleft", "move_to_end", "difference_update",
     "intersection_update", "symmetric_difference_update",
 }
+_EXT_MUTABLE_CACHE: Dict[str, bool] = {}
+
+
+def _ext_is_mutable_container(name: str) -> bool:
+    """Whether `module.attr` of the standard library names a list / dict / set that lives in that module (dis.hasjabs, opcode.opmap, sys.path):
+    an augmented assignment through an alias changes it for the whole process.  Decided on the checker's own copy of the library module."""
+    if name not in _EXT_MUTABLE_CACHE:
+        res = False
+        parts = name.split(".")
+        if len(parts) >= 2 and parts[0] in ("dis", "opcode", "sys", "warnings", "keyword", "token", "types", "collections", "itertools", "enum", "dataclasses", "typing", "math", "ast", "copy", "base64", "json", "inspect"):
+            try:
+                import importlib
+                o = importlib.import_module(parts[0])
+                for p_ in parts[1:]:
+                    o = getattr(o, p_)
+                res = isinstance(o, (list, dict, set, bytearray))
+            except Exception:  # noqa: BLE001 - unknown name: not decided as a container
+                res = False
+        _EXT_MUTABLE_CACHE[name] = res
+    return _EXT_MUTABLE_CACHE[name]
+
+
 _CONTAINER_METHODS = MUTATING_METHODS | {"get", "items", "keys", "values", "copy", "index", "count", "union", "intersection", "difference"}
 CONTAINER_KINDS = {"dict", "list", "set", "tuple", "frozenset", "gen", "defaultdict"}
 BUILTIN_KIND = {
@@ -1699,7 +1721,7 @@ class Interp:
         if isinstance(t, ast.Attribute) and self._attr_is_scalar_field(fr, t):
             old = frozenset(a for a in old if a[0] != "src")
         conts = frozenset(a for a in old if (a[0] == "obj" and self.obj_kind(a) in CONTAINER_KINDS) or
-                          (a[0] == "src" and self._src_maybe_mutable(a)))
+                          (a[0] == "src" and self._src_maybe_mutable(a)) or (a[0] == "ext" and _ext_is_mutable_container(a[1])))
         scal = frozenset(a for a in old if a not in conts)
         new = EMPTY
         if conts:
